@@ -54,14 +54,14 @@ Proof. op_solve. Qed.
 
 (* --------------------------------------------------------------- subtraction *)
 (* a - b is a.__add__(-b); for an Angle b, -b is the new Angle(-b) *)
-(*SUBAA Lemma sub_AA a ta b tb : Angle___sub__ Rops (angT a ta) (angT b tb) = ang (red360 (a + red360 (- b))).
-Proof. op_solve. Qed. SUBAA*)
+Lemma sub_AA a ta b tb : Angle___sub__ Rops (angT a ta) (angT b tb) = ang (red360 (a + red360 (- b))).
+Proof. op_solve. Qed.
 Lemma sub_AF a ta y : Angle___sub__ Rops (angT a ta) (VFloat y) = ang (red360 (a + - y)).
 Proof. op_solve. Qed.
 Lemma sub_AI a ta z : Angle___sub__ Rops (angT a ta) (VInt z) = ang (red360 (a + IZR (- z))).
 Proof. op_solve. Qed.
-(*SUBAA Lemma isub_AA a ta b tb : Angle___isub__ Rops (angT a ta) (angT b tb) = ang (red360 (a + red360 (- b))).
-Proof. op_solve. Qed. SUBAA*)
+Lemma isub_AA a ta b tb : Angle___isub__ Rops (angT a ta) (angT b tb) = ang (red360 (a + red360 (- b))).
+Proof. op_solve. Qed.
 Lemma isub_AF a ta y : Angle___isub__ Rops (angT a ta) (VFloat y) = ang (red360 (a + - y)).
 Proof. op_solve. Qed.
 Lemma isub_AI a ta z : Angle___isub__ Rops (angT a ta) (VInt z) = ang (red360 (a + IZR (- z))).
